@@ -229,6 +229,22 @@ fn main() {
         t
     });
 
+    // S5: small integers written with k trailing zero fraction digits, every k to K (digit-count estimates
+    // that decide "is it below one" change with the bit length)
+    let kmax: usize = tier.pick(1300, 4000);
+    run.bound("S5_trailing_fraction_zeros", format!("0..={}", kmax));
+    run.par("S5 integers with k fraction zeros", kmax + 1, |k| {
+        let mut t = Tally::default();
+        let p = pow10(k as u64);
+        for v in [BigInt::from(1), BigInt::from(-1), BigInt::from(2), BigInt::from(9), BigInt::from(i64::MAX), BigInt::from(i64::MIN), BigInt::from(u64::MAX)] {
+            check_all(&run, &Dec { n: &v * &p, s: k as i128 }, &mut t);
+            // and just below / above the integer
+            check_all(&run, &Dec { n: &v * &p + 1, s: k as i128 }, &mut t);
+            check_all(&run, &Dec { n: &v * &p - 1, s: k as i128 }, &mut t);
+        }
+        t
+    });
+
     // S4: zeros with scales; constructors
     run.seq("S4 zeros and constructors", || {
         let mut t = Tally::default();
